@@ -31,15 +31,13 @@ Lemma cons5 (prof : profile) (h : header) : V5.build_empty_packet h = None ->
   forall t p d', V5.block_decode prof h t [] <> ROk p d'.
 Proof.
   unfold V5.build_empty_packet, V5.block_decode.
-  destruct (h_typ h); intros Hb t p d' H; try discriminate Hb;
-    try (vm_compute in H; discriminate H).
-  - (* PDisconnect *)
-    destruct (h_rl h =? 0) eqn:E0; [discriminate Hb|].
-    unfold V5.disconnect_decode, bind in H. rewrite E0 in H.
-    destruct (h_rl h =? 1); vm_compute in H; discriminate H.
-  - (* PAuth *)
-    destruct (h_rl h =? 0) eqn:E0; [discriminate Hb|].
-    unfold V5.auth_decode, bind in H. rewrite E0 in H. vm_compute in H. discriminate H.
+  destruct (h_typ h) eqn:Et; intros Hb t p d' H; try discriminate Hb.
+  (* DISCONNECT / AUTH: decide the tests on the remaining length before computing *)
+  all: try (match type of Et with _ = PDisconnect => idtac | _ = PAuth => idtac end;
+            destruct (h_rl h =? 0) eqn:E0; [discriminate Hb|];
+            unfold V5.disconnect_decode, V5.auth_decode, bind in H; rewrite E0 in H;
+            destruct (h_rl h =? 1) eqn:E1; try rewrite E1 in H).
+  all: timeout 20 (vm_compute in H); discriminate H.
 Qed.
 
 Local Notation frame5 prof :=
@@ -233,4 +231,55 @@ Definition ex5_connack : V5.packet :=
   V5.Connack {| V5.ca_sp := true; V5.ca_code := 0;
                 V5.ca_props := pset (pset props_empty ReceiveMaximum (Some (VN 100)))
                                     AssignedClientIdentifier (Some (VB [99; 108; 105])) |}.
-Eval vm_compute in V5.encode Debug ex5_connack.
+Definition ex5_bytes : bytes := [32; 12; 1; 0; 9; 33; 0; 100; 18; 0; 3; 99; 108; 105].
+
+Example ex5_valid : I5.valid ex5_connack = true.
+Proof. vm_compute. reflexivity. Qed.
+Example ex5_encode : V5.encode Debug ex5_connack = Ok (Dynamic ex5_bytes).
+Proof. vm_compute. reflexivity. Qed.
+
+(* a 3-chunk schedule with a Pending: [32] cut [12 1 0 9 33 0] Pend [100 18 0 3 99 108 105], then a stray 7 *)
+Definition ex5_schedule : list atom :=
+  [AB 32; ACut; AB 12; AB 1; AB 0; AB 9; AB 33; AB 0; APend;
+   AB 100; AB 18; AB 0; AB 3; AB 99; AB 108; AB 105; AB 7].
+Example ex5_schedule_bytes : bytes_of ex5_schedule = ex5_bytes ++ [7].
+Proof. vm_compute. reflexivity. Qed.
+Example ex5_poll :
+  let r := F5.poll_drive Release ex5_schedule TEof in
+  rr_res _ r = Some (Ok (14, [1; 0; 9; 33; 0; 100; 18; 0; 3; 99; 108; 105], ex5_connack))
+  /\ bytes_of (rr_rest _ r) = [7] /\ rr_pend _ r = 1.
+Proof. vm_compute. repeat split. Qed.
+Example ex5_prefix : F5.dec_block Debug (firstn 9 ex5_bytes) = BNone
+  /\ rr_res _ (F5.poll1 Debug (firstn 9 ex5_bytes) (TFail KInterrupted)) = Some (Err (IoError KInterrupted)).
+Proof. vm_compute. split; reflexivity. Qed.
+
+(* the zero-length DISCONNECT and AUTH go through build_empty_packet *)
+Definition ex5_disconnect0 : V5.packet := V5.Disconnect {| V5.d_code := 0; V5.d_props := props_empty |}.
+Definition ex5_auth0 : V5.packet := V5.Auth {| V5.d_code := 0; V5.d_props := props_empty |}.
+Example ex5_stream :
+  encs5 Debug [ex5_connack; ex5_disconnect0; V5.Pingresp; ex5_auth0; ex5_connack]
+              [ex5_bytes; [224; 0]; [208; 0]; [240; 0]; ex5_bytes].
+Proof.
+  repeat constructor; try (vm_compute; reflexivity);
+    eexists; (split; [vm_compute; reflexivity|reflexivity]).
+Qed.
+Example ex5_stream_run :
+  stream_poll V5.packet (F5.poll1 Debug) 6 TEof (concat [ex5_bytes; [224; 0]; [208; 0]; [240; 0]; ex5_bytes]) []
+  = ([(ex5_connack, 14); (ex5_disconnect0, 2); (V5.Pingresp, 2); (ex5_auth0, 2); (ex5_connack, 14)],
+     FErr (IoError KUnexpectedEof)).
+Proof. vm_compute. reflexivity. Qed.
+
+Print Assumptions C01_v5_async.
+Print Assumptions C01_v5_block.
+Print Assumptions C01_v5_poll.
+Print Assumptions C01_v5_poll1.
+Print Assumptions C07_v5_prefix.
+Print Assumptions C14_v5_read_fault.
+Print Assumptions C07_C14_v5_any_tail.
+Print Assumptions C08_v5_async_fuel.
+Print Assumptions C08_v5_block_fuel.
+Print Assumptions C08_v5_poll_fuel.
+Print Assumptions C08_v5_async.
+Print Assumptions C08_v5_block.
+Print Assumptions C08_v5_poll.
+Print Assumptions C08_v5_sizes.
